@@ -131,14 +131,14 @@ class CovariateDataframeDataReader(AbstractDataframeDataReader):
 
         # Assert one unique covariate per patient and group to drop duplicates
         if (
-            not (df_covariate.groupby("ID").nunique()[self.covariate_names].eq(1))
+            not (df_covariate.groupby("ID", observed=True).nunique()[self.covariate_names].eq(1))
             .all()
             .all()
         ):
             raise LeaspyDataInputError(
                 "There must be only an unique covariate value per patient."
             )
-        df_covariate = df_covariate.groupby("ID").first()
+        df_covariate = df_covariate.groupby("ID", observed=True).first()
 
         if len(df_covariate) == 0:
             raise LeaspyDataInputError("Dataframe should have at least 1 covariate")
@@ -192,9 +192,9 @@ class CovariateDataframeDataReader(AbstractDataframeDataReader):
         )
 
         if (
-            not df_covariate.groupby("ID")
+            not df_covariate.groupby("ID", observed=True)
             .first()
-            .index.equals(df_visit.groupby("ID").first().index)
+            .index.equals(df_visit.groupby("ID", observed=True).first().index)
         ):
             raise LeaspyDataInputError(
                 "All patients must have at least one visit and one covariate"
